@@ -121,7 +121,7 @@ def check_mesh_topology(ctx, ds, cv, out, info, kept, supply, start_index):
         ctx.check(int(res.attrs.get('start_index', 0)) == int(src.attrs.get('start_index', 0)), f'{name} keeps its index base')
         want_dtype = src.encoding.get('dtype', src.dtype)
         got_dtype = res.encoding.get('dtype', res.dtype)
-        ctx.check(numpy.dtype(got_dtype).kind == 'i' and numpy.dtype(got_dtype) == numpy.dtype(want_dtype), f'{name} keeps its integer type')
+        ctx.check(numpy.dtype(got_dtype).kind in 'iu' and numpy.dtype(got_dtype) == numpy.dtype(want_dtype), f'{name} keeps its integer type')
     if 'edge_node' in supply:
         en = rows(topo.edge_node_array)
         ctx.check(en == [[nmap[int(v)] for v in old_topo.edge_node_array[e]] for e in keep_edges],
@@ -159,7 +159,7 @@ def c08_ring(p):
     return ring_of(p)
 
 
-def body_select_variables(ctx, conv, bounds_as_coords=False, one_axis=False):
+def body_select_variables(ctx, conv, bounds_as_coords=False, one_axis=False, padded_bounds_name=False):
     """Keeping only some data variables leaves the geometry, and therefore every polygon, identical."""
     if conv == 'ugrid':
         ds, cv, info = c08.mesh_dataset(ctx, 'tqp', ('edge_node', 'face_edge'), 1, 'nan')
@@ -179,6 +179,13 @@ def body_select_variables(ctx, conv, bounds_as_coords=False, one_axis=False):
         for v in ds.variables.values():
             if v.attrs.get('bounds') == gone:
                 del v.attrs['bounds']
+        cv = type(cv)(ds)
+    if padded_bounds_name:
+        # a bounds attribute that matches a variable name only after stripping blanks: whatever the library makes of
+        # it (stored bounds or derived ones), the subset is treated the same way
+        for v in ds.variables.values():
+            if isinstance(v.attrs.get('bounds'), str):
+                v.attrs['bounds'] = v.attrs['bounds'] + '  '
         cv = type(cv)(ds)
     keep = [n for k, n in enumerate(datavars) if bool(ctx.bool(f'keep{k}'))]      # forks: every subset
     ctx.note('subset', keep)
@@ -206,6 +213,8 @@ def cases(tier):
         yield Case(f'select_variables:{conv}', body_select_variables, dict(conv=conv), max_paths=200)
     for conv in ('cf1d', 'cf2d'):
         yield Case(f'select_variables:{conv}:bounds-on-one-axis', body_select_variables, dict(conv=conv, one_axis=True), max_paths=200)
+    for conv in ('cf1d', 'cf2d'):
+        yield Case(f'select_variables:{conv}:padded-bounds-name', body_select_variables, dict(conv=conv, padded_bounds_name=True), max_paths=200)
     for conv in ('cf1d', 'cf2d', 'shoc_simple'):
         yield Case(f'select_variables:{conv}:bounds-as-coordinates', body_select_variables, dict(conv=conv, bounds_as_coords=True), max_paths=200)
 
